@@ -155,7 +155,7 @@ def c08_r2(ctx):
         for n_ in fa.g.nodes:
             if n_.kind == "return":
                 rets[norm.canon(n_.ast.value)] = sorted(fa.at(n_) or [])
-        ctx.ob(base_gi, rets.get("self._defaultbytes") == [("T", "(self._count <= docnum)")],
+        ctx.ob(base_gi, rets.get("self._defaultbytes") == [("F", "(docnum < self._count)")],
                "rows at or past the written count read as the default bytes", detail=str(rets))
         # default bytes derive from the same default on both sides
         wi = W.methods["__init__"]
@@ -260,11 +260,11 @@ def c08_r4(ctx):
                 nm = norm.call_name(c)
                 if nm == "add_column_value":
                     facts = fa.at(n_) or frozenset()
-                    ok = dfact(facts, "T", FIELD + ".column_type") and dfact(facts, "T", "%s is not None" % CUSTOM)
+                    ok = dfact(facts, "T", FIELD + ".column_type") and dfact(facts, "F", "%s is None" % CUSTOM)
                     ctx.ob(f, ok, "a column value is written only for fields with a column and a supplied value", loc=ctx.nodeloc(f, c))
                 if nm in ("add_field", "add_column_value", "add_vector_items"):
                     facts = fa.at(n_) or frozenset()
-                    ok = dfact(facts, "F", "fields.get(fieldname) is None") or dfact(facts, "T", "fields.get(fieldname) is not None")
+                    ok = dfact(facts, "F", "fields.get(fieldname) is None")
                     ctx.ob(f, ok, "%s(...) happens only for fields that were supplied (value is not None)" % nm, loc=ctx.nodeloc(f, c))
 
 
